@@ -202,3 +202,23 @@ func vMaxKeys() int {
 	}
 	return 3
 }
+
+// H_C16_BytesComparator: the library's byte-slice comparator agrees in sign with the lexicographic order for all
+// keys of length 0..3 and for all keys of exactly 8 bytes (a fixed-width fast path is the usual optimisation).
+func H_C16_BytesComparator() {
+	var a, b []byte
+	if vrt.Choose("shape", 2) == 0 {
+		a, b = vrt.Bytes("a", 3), vrt.Bytes("b", 3)
+	} else {
+		a, b = vrt.BytesN("a", 8), vrt.BytesN("b", 8)
+		vrt.Reach("bytescmp/eight-byte-keys")
+	}
+	got := BytesComparator{}.Compare(a, b)
+	want := vrt.CmpBytes(a, b)
+	vrt.Assert((got < 0) == (want < 0), "bytescmp/negative-exactly-when-smaller")
+	vrt.Assert((got == 0) == (want == 0), "bytescmp/zero-exactly-when-equal")
+	vrt.Assert((got > 0) == (want > 0), "bytescmp/positive-exactly-when-greater")
+	vrt.TraceBool("lt", got < 0)
+	vrt.TraceBool("eq", got == 0)
+	vrt.Reach("bytescmp/end")
+}
